@@ -268,7 +268,7 @@ def run(spec, cfg, workers=None, timeout=1200, simulate=None, depth=None, seed=N
         r.violated = m.group(1)
     elif 'Deadlock reached' in out:
         r.violated = 'deadlock'
-    elif 'Temporal properties were violated' in out:
+    elif 'Temporal properties were violated' in out or re.search(r'Temporal property \S+ was violated', out):
         r.violated = 'temporal'
     elif re.search(r'Action property (\S+) is violated', out):
         r.violated = re.search(r'Action property (\S+) is violated', out).group(1)
